@@ -26,7 +26,8 @@ Alphabet ==
   \cup { Op("Set", h, "", p[1], p[2], "", NoDef, FALSE) : h \in H,
             p \in { <<"s", V(1)>>, <<"s", V(2)>>, <<"n", V(1)>>, <<"n", NilV>>, <<"b", V(1)>>, <<"b", V(2)>>,
                     <<"q", V(1)>>, <<"q", NilV>>, <<"o", Ids(<<"a">>)>>, <<"o", Ids(<<>>)>>,
-                    <<"m", Ids(<<"b", "a">>)>>, <<"m", Ids(<<"c", "b", "a">>)>>, <<"m", Ids(<<>>)>> } }
+                    <<"m", Ids(<<"b", "a">>)>>, <<"m", Ids(<<"c", "b", "a">>)>>, <<"m", Ids(<<>>)>>,
+                    <<"m", Ids(<<"a", "b", "a">>)>> } }
   \cup { Op("Set", h, "", f, NilV, "", NoDef, TRUE) : h \in H, f \in {"n", "q"} }   \* untyped nil
   \cup { Op("SetID", h, "", "", V(0), id, NoDef, FALSE) : h \in H, id \in {"i1", "i2"} }
   \cup { Op(o, h, "", "", V(0), "", NoDef, FALSE) : o \in {"Copy", "NewLike", "TypeCopy", "Marshal"}, h \in H }
